@@ -195,3 +195,5 @@ Arguments OSetGauge {N}. Arguments OModNorm {N}. Arguments OModAV {N}. Arguments
 Arguments OModCost {N}. Arguments OSetSpeed {N}.
 Arguments EAdded {N}. Arguments EStart {N}. Arguments EReset {N}. Arguments EGauge {N}.
 Arguments ECost {N}. Arguments EErr {N}. Arguments EPanic {N}. Arguments EConvUndefined {N}.
+Arguments order {N}. Arguments cost {N}. Arguments active {N}. Arguments atarget {N}.
+Arguments total {N}. Arguments speeds {N}.
